@@ -27,6 +27,48 @@ macro "hinv_close" h:ident : tactic => `(tactic| (
   obtain ⟨h0, h1, h2, h3, h4, h5, h6, h7, h8, h9, h10, h11, h12, h13⟩ := $h
   constructor <;> simp_all <;> grind))
 
+@[simp] theorem handleCEA_R (s : HS) (k : CEAKind) : (s.handleCEA k).R = s.R := by
+  unfold HS.handleCEA; cases k <;> (repeat' split) <;> rfl
+@[simp] theorem handleCEA_pc (s : HS) (k : CEAKind) : (s.handleCEA k).pc = s.pc := by
+  unfold HS.handleCEA; cases k <;> (repeat' split) <;> rfl
+@[simp] theorem handleCEA_libClosed (s : HS) (k : CEAKind) : (s.handleCEA k).libClosed = s.libClosed := by
+  unfold HS.handleCEA; cases k <;> (repeat' split) <;> rfl
+@[simp] theorem handleCEA_cers (s : HS) (k : CEAKind) : (s.handleCEA k).cers = s.cers := by
+  unfold HS.handleCEA; cases k <;> (repeat' split) <;> rfl
+@[simp] theorem handleCEA_timers (s : HS) (k : CEAKind) : (s.handleCEA k).timers = s.timers := by
+  unfold HS.handleCEA; cases k <;> (repeat' split) <;> rfl
+
+/-- `handleCEA` keeps the invariant, whenever it runs -/
+theorem HInv_handleCEA (s : HS) (k : CEAKind) (h : HInv s) : HInv (s.handleCEA k) := by
+  unfold HS.handleCEA
+  by_cases hf : s.onceOnly = true ∧ s.fired = true
+  · simp only [hf, and_self, if_true]; exact h
+  · simp only [hf, if_false]
+    have hfired : s.fired = false := by
+      have := h.cfg.1
+      cases hfd : s.fired with
+      | false => rfl
+      | true => simp [this, hfd] at hf
+    obtain ⟨u1, u2, u3⟩ := h.unfired hfired
+    cases k with
+    | failing =>
+      simp only [u2, u1]
+      have hcap := h.cfg.2
+      have : (([] : List Bool).length < s.cap) := by simp; omega
+      simp only [this, if_true]
+      simp
+      hinv_close h
+    | success =>
+      simp only [u2]
+      simp
+      hinv_close h
+
+/-- once a CEA has been handled, no later one - dispatched normally or out of the read buffer
+    after the transport was closed - changes anything: the first CEA decides -/
+theorem handleCEA_once (s : HS) (k : CEAKind) (h : HInv s) (hf : s.fired = true) : s.handleCEA k = s := by
+  unfold HS.handleCEA
+  simp [h.cfg.1, hf]
+
 theorem HInv_step (s s' : HS) (e : HEv) (h : HInv s) (hs : s.step e = some s') : HInv s' := by
   cases e with
   | writeOk =>
@@ -73,27 +115,12 @@ theorem HInv_step (s s' : HS) (e : HEv) (h : HInv s) (hs : s.step e = some s') :
     simp only [HS.step] at hs
     split at hs
     · cases hs
-    · split at hs
-      · cases hs; exact h
-      · rename_i hno hnf
-        have hfired : s.fired = false := by
-          have := h.cfg.1
-          cases hf : s.fired with
-          | false => rfl
-          | true => simp [this, hf] at hnf
-        obtain ⟨u1, u2, u3⟩ := h.unfired hfired
-        cases k with
-        | failing =>
-          simp only [u2, u1] at hs
-          have hcap := h.cfg.2
-          have : (([] : List Bool).length < s.cap) := by simp; omega
-          simp only [this, if_true] at hs
-          simp at hs
-          cases hs; hinv_close h
-        | success =>
-          simp only [u2] at hs
-          simp at hs
-          cases hs; hinv_close h
+    · cases hs; exact HInv_handleCEA s k h
+  | leftover k =>
+    simp only [HS.step] at hs
+    split at hs
+    · cases hs; exact HInv_handleCEA s k h
+    · cases hs
   | peerClose =>
     simp only [HS.step] at hs
     split at hs
